@@ -92,7 +92,7 @@ def canon(path):
     if d["self_ty"] is None:
         out.add(full)
         # inherent impl printed as module::<impl Type>::method  -> segs lose the <impl ..>; recover
-        m = re.search(r"<impl ([^>]*(?:<[^>]*>)?[^>]*)>::([A-Za-z_0-9]+)", path)
+        m = re.search(r"<impl ([^>]*(?:<[^>]*>)?[^>]*)>::([A-Za-z_0-9]+)(?:::<.*>)?$", path)
         if m:
             out.add("%s::%s" % (last_ident(m.group(1)), m.group(2)))
         if len(segs) >= 2:
